@@ -130,6 +130,8 @@ def coq_surface(s):
 
 def coq_case(case):
     doms = clist(clist(coq_value(v) for v in TYPES[t][4]) for t in case["sig"])
+    if not case["sig"]:
+        doms = "(@nil (list value))"
     return f"({coq_surface(case['surface'])}, {doms})"
 
 
@@ -602,6 +604,14 @@ def directed_cases():
             out.append({"sig": ["int", "int", "int"], "_form": "directed",
                         "surface": {"form": "disj", "guard": g,
                                     "pats": [("tuple", alt), ("tuple", [("cmp", bb, vint(7)), ("wild",), ("cmp", not a, vint(3))])]}})
+    # zero-argument functions: matching!() and the guarded empty tuple `() if g` (the guard can only be built
+    # from constants; the analysed argument list is empty but the pattern list is not)
+    tt, ff = ("const", True), ("const", False)
+    out.append({"sig": [], "_form": "directed", "surface": {"form": "empty"}})
+    for g in (tt, ff, ("or", ff, tt), ("and", tt, ff), ("not", ("paren", tt)), ("not", ("paren", ("and", tt, ff))), ("paren", ("or", ff, ff))):
+        out.append({"sig": [], "_form": "directed", "surface": {"form": "simple", "pats": [("tuple", [])], "guard": g}})
+        if g is not None:
+            out.append({"sig": [], "_form": "directed", "surface": {"form": "disj", "pats": [("tuple", []), ("tuple", [])], "guard": g}})
     # single- versus multi-argument packing and the coercions, all holders
     for t in STRLIKE:
         out.append({"sig": [t], "_form": "directed", "surface": {"form": "simple", "pats": [("or", [("strlit", "ab"), ("strlit", "b")])], "guard": None}})
